@@ -135,14 +135,13 @@ class Subject:
             self.drop_stale(op)
 
     def drop_stale(self, op):
-        """Single-handle discipline: a kept handle is dropped when its node (or an ancestor) is
-        touched by anything else than a metadata operation through that very handle."""
+        """A kept handle is dropped only when its node (or an ancestor/descendant path) is touched STRUCTURALLY (deleted, moved,
+        copied onto, re-created): the handle then belongs to a node that is gone."""
         k = op[0]
-        if k in ("meta", "delmeta") and op[-1] == "kept":
-            return
         if k in ("meta", "delmeta", "badmeta"):
-            self.kept.pop(op[1], None)
-            return  # (kept NODE wrappers stay: metadata changes through other wrappers must be visible through them)
+            # metadata operations never invalidate a handle: a kept `meta` handle and kept node wrappers of the same node must
+            # see what was done through any other handle (several live handles on one node are ordinary Python)
+            return
         ps = [E.abspath("/", p) for p in (op[2:3] if k == "copyfrom" else op[1:3]) if isinstance(p, str)]
         if k == "at":  # operation through a sub-group handle: the paths it names (relative to the group, or absolute)
             ps = list(E.op_paths(op))
